@@ -37,7 +37,10 @@ Definition judge_m2j (sc : schema) (m : md) (r1 : result json) (r2 : option (res
 Definition judge_j2p (sc : pschema) (j : json) (r1 : result pd) (r2 : option (result json)) : verdict :=
   if negb (json_wf j) then NA
   else match sc with
-       | PBasic => match r1, r2 with Panic, _ => Fails 0 | _, Some Panic => Fails 0 | _, _ => NA end
+       | PBasic =>
+           (* no round-trip claim under BasicConversions; the conversion is defined exactly on the schema's language *)
+           if pbasic_json_dom j then match r1, r2 with Ok _, Some Panic => Fails 0 | Ok _, _ => Holds | _, _ => Fails 0 end
+           else match r1 with Err => Holds | _ => Fails 0 end
        | PDetailed =>
            if pdom_detailed j then match r1, r2 with Ok _, Some (Ok _) => Holds | _, _ => Fails 0 end
            else match r1 with Err => Holds | _ => Fails 0 end
@@ -46,7 +49,10 @@ Definition judge_j2p (sc : pschema) (j : json) (r1 : result pd) (r2 : option (re
 Definition judge_p2j (sc : pschema) (p : pd) (r1 : result json) (r2 : option (result pd * bool)) : verdict :=
   if negb (pd_wf p) then NA
   else match sc with
-       | PBasic => match r1, r2 with Panic, _ => Fails 0 | _, Some (Panic, _) => Fails 0 | _, _ => NA end
+       | PBasic =>
+           (* a datum the Basic schema cannot express (a key with no or several values, a structured key) must be refused *)
+           if pbasic_dom p then match r1, r2 with Ok _, Some (Panic, _) => Fails 0 | Ok _, _ => Holds | _, _ => Fails 0 end
+           else match r1 with Err => Holds | _ => Fails 0 end
        | PDetailed =>
            let ok := match r1, r2 with Ok _, Some (Ok p', eq) => pd_eqb p p' && eq | _, _ => false end in
            if ok then Holds else if pd_has_empty_values p then Fails 2 else Fails 0
